@@ -168,6 +168,43 @@ def run(ctx):
             obad.append((-1, "SMTP: the sync and the tokio client put different octets on the wire for the same %d-octet message (first difference at DATA octet %d)" % (len(m), first)))
         elif hx(units[0]) != wires[k]:
             cbad.append((-1, "SMTP: DATA-phase octets of a %d-octet message differ from the model's wire" % len(m)))
+    # Transport::send(&Message) / AsyncTransport::send(Message) - the entry point applications use: every transport must hand on the
+    # message's own envelope and its formatted octets
+    subjects = [b"plain", "Grüße".encode(), b"long " + b"word " * 30, b"a\r\nBcc: x@y.z", b""]
+    bodies = [b"hello\r\n", b".\r\n.leading dots\r\n..\r\n", "zażółć gęślą jaźń\r\n".encode(), b"no final newline", b"lone\nlf and\rcr", b"x" * 3000 + b"\r\n", b""]
+    sm_lines = ["transport.send_msg\t%s\t%s\t%d" % (hx(sj), hx(bd), kb) for sj in subjects for bd in bodies for kb in (0, 1)]
+    sm_res = run_impl(sm_lines)
+    ctx.count(len(sm_lines))
+    sm_bad = [(l, r) for l, r in zip(sm_lines, sm_res) if not (r.startswith("ok\t") or r.startswith("skip\t"))]
+    msg_scs, msg_meta = [], []
+    for sj in subjects[:3]:
+        for bd in bodies:
+            for kb in (False, True):
+                for fl in ("sync", "tokio"):
+                    script = [step("none", b"220 hi\r\n"), step("line", b"250-srv\r\n250-8BITMIME\r\n250 SMTPUTF8\r\n")] + [step("line", b"250 ok\r\n")] * 4 + \
+                             [step("line", b"354 go\r\n"), step("data", b"250 queued\r\n"), step("line", b"221 bye\r\n")]
+                    msg_scs.append({"id": 800000 + len(msg_scs), "flavor": fl, "timeout_ms": 3000, "servers": [script],
+                                    "ops": [{"op": "transport", "hello": hx(b"c18.test")}, {"op": "tsend_msg", "subject": hx(sj), "body": hx(bd), "keep_bcc": kb}, {"op": "tdrop"}]})
+                    msg_meta.append((sj, bd, kb, fl))
+    for (sj, bd, kb, fl), r, sc in zip(msg_meta, run_scenarios(msg_scs), msg_scs):
+        ctx.count()
+        res = (r.get("results") or [None, None])[1]
+        srv = (r.get("servers") or [None])[0]
+        Rs = events_R(srv) if srv else []
+        if not isinstance(res, dict):
+            sm_bad.append((json.dumps(sc["ops"][1]), "send(&Message) over SMTP (%s) gave %s" % (fl, str(res)[:200]))); continue
+        want_cmds = [b"MAIL FROM:<" + res["from"].encode() + b">"] + [b"RCPT TO:<" + t.encode() + b">" for t in res["to"]]
+        got_cmds = [x.strip().split(b" BODY=")[0].split(b" SMTPUTF8")[0] for x in Rs[1:1 + len(want_cmds)]]
+        unit = Rs[2 + len(want_cmds)] if len(Rs) > 2 + len(want_cmds) else b""
+        body = b"\r\n".join(l[1:] if l.startswith(b".") else l for l in unit[:-5].split(b"\r\n")) if unit.endswith(b"\r\n.\r\n") else None
+        fm = unhx(res["formatted"])
+        if got_cmds != want_cmds or res["to"] != ["b@y.org", "c@z.org", "h@w.org"] or res["from"] != "a@x.org":
+            sm_bad.append((json.dumps(sc["ops"][1]), "send(&Message) over SMTP (%s): envelope on the wire %r, the message's envelope %r" % (fl, got_cmds, want_cmds)))
+        elif body is None or body != fm:
+            sm_bad.append((json.dumps(sc["ops"][1]), "send(&Message) over SMTP (%s): the server reconstructs %d octets, formatted() has %d" % (fl, len(body or b""), len(fm))))
+        elif (b"\r\nBcc:" in b"\r\n" + fm.split(b"\r\n\r\n")[0]) != kb:
+            sm_bad.append((json.dumps(sc["ops"][1]), "Bcc field %s although keep_bcc=%s" % ("present" if not kb else "absent", kb)))
+    ctx.cov["oracle"]["send_message_entry_point_all_transports"] = {"stub_file_cases": len(sm_lines), "smtp_dialogues": len(msg_scs), "failures": len(sm_bad)}
     ctx.cov["correspondence"]["smtp_sync_vs_tokio_vs_model"] = {"scenarios": len(scs), "flavors": ["sync", "tokio"], "disagreements": len(bad)}
     ctx.cov["correspondence"]["sinks"] = {"stub_file_cases": len(cases), "sendmail_runs": len(sm_cases), "disagreements": len(cbad)}
     ctx.cov["oracle"]["sink_readers_on_impl_output"] = {"failures": len(obad), "known_class_hits": hits}
@@ -181,6 +218,8 @@ def run(ctx):
             ctx.known_lines.append("%s: %s (%d generated cases in this class)" % (cl, known[cl]["what_fails"], n))
         else:
             obad.append((-1, "unlisted class %s" % cl))
+    if sm_bad:
+        ctx.violation({"kind": "oracle", "entry": "Transport::send(&Message)", "line": sm_bad[0][0][:3000], "what": sm_bad[0][1][:600], "failures": len(sm_bad)})
     if obad:
         i, why = obad[0]
         ctx.violation({"kind": "oracle", "what": why, "case": args_of(*cases[i])[:4000] if i >= 0 else None, "failures": len(obad), "all": [w for _, w in obad[:10]]})
